@@ -52,7 +52,10 @@ StrayOK(sc) == LET st == {i \in 1 .. Len(sc) : sc[i].t = "stray"} IN
 Shape(sc) == /\ sc # <<>> /\ \A i \in 1 .. (Len(sc) - 1) : ~(sc[i].t = "txt" /\ sc[i + 1].t = "txt")
 \* text that ends in a partial marker (top level only: inside a mark it would be ambiguous with the closing marker)
 Edgy == {Txt(s) : s \in {"C++", "x--", "y~~", "e==", "q<<", "{+", "{"}}
-Top == Leaves \cup Marks1 \cup Strays \cup Edgy
+\* backslash escapes of marker characters inside either half of a substitution (the half that is discarded is erased piece by piece), and inside comments
+EscSubs == {Sub("o \\{x\\} d", "new"), Sub("old", "n \\+\\- w"), Sub("\\~\\>", "\\="), Sub("a\\}", "b\\{"), Com("c \\< \\> d")}
+EscMarks == {Add(<<e>>) : e \in EscSubs} \cup {Hi(<<Txt("h "), e>>) : e \in EscSubs} \cup {Del(<<e, Txt("\\-")>>) : e \in EscSubs}
+Top == Leaves \cup Marks1 \cup Strays \cup Edgy \cup EscSubs \cup EscMarks
 RECURSIVE RandSeq(_, _)
 RandSeq(S, n) == IF n = 0 THEN <<>> ELSE <<RandomElement(S)>> \o RandSeq(S, n - 1)
 RandScript(dummy) == RandSeq(Top \cup Marks2, RandomElement(1 .. 5))
